@@ -16,15 +16,27 @@ fn show_dir(d: ParseDirection) -> &'static str {
     }
 }
 fn show_parser(input: &str, p: Parser<'_>) -> String {
-    format!("rem={};off={};dir={}", view_str(input, p.remainder()), p.start_offset(), show_dir(p.parse_direction()))
+    // fl: the split protocol is exhausted (yielded_last_split): a further split fails at once
+    let fl = matches!(p.split('\u{1}'), Err(e) if matches!(e.kind(), konst::parsing::ErrorKind::SplitExhausted));
+    format!("rem={};off={};dir={};fl={}", view_str(input, p.remainder()), p.start_offset(), show_dir(p.parse_direction()), show_bool(fl))
 }
 
 fn one(input: &str, n: usize, st: usize, out: &mut Out) {
-    let (off, dir) = if st == 0 { (0usize, "S") } else { (5usize, "E") };
+    // state 2 ("X"): the parser after a split that found no delimiter: empty remainder, offset
+    // past the input, split protocol exhausted — skip / skip_back must leave that flag alone
+    let (off, dir) = if st == 0 { (0usize, "S") } else if st == 1 { (5usize, "E") } else { (3usize, "X") };
     let mk = || {
         let p = Parser::with_start_offset(input, off);
-        if st == 0 { p } else { p.skip_back(0) }
+        if st == 0 { p } else if st == 1 { p.skip_back(0) } else { p.split('\u{1}').unwrap().1 }
     };
+    if st == 2 {
+        let args = format!("{} {} {} {}", hex(input.as_bytes()), n, off, dir);
+        let imp = catch(|| show_parser(input, mk().skip(n)));
+        out.line("c18.skip", &args, &imp, &format!("rem=e;off={};dir=S;fl=T", off + input.len()), "exhausted-split");
+        let imp = catch(|| show_parser(input, mk().skip_back(n)));
+        out.line("c18.skip_back", &args, &imp, &format!("rem=e;off={};dir=E;fl=T", off + input.len()), "exhausted-split");
+        return;
+    }
     let args = format!("{} {} {} {}", hex(input.as_bytes()), n, off, dir);
     let len = input.len();
     // std oracle: the cut moves to the next (skip) / previous (skip_back) char boundary
@@ -38,11 +50,11 @@ fn one(input: &str, n: usize, st: usize, out: &mut Out) {
     }
     let inside = |i: usize| i < len && !input.is_char_boundary(i);
     let imp = catch(|| show_parser(input, mk().skip(n)));
-    let std_ = format!("rem={};off={};dir=S", view_str(input, &input[up..]), off + up);
+    let std_ = format!("rem={};off={};dir=S;fl=F", view_str(input, &input[up..]), off + up);
     let tag = if inside(n) { "round" } else if n > len { "beyond" } else if n == 0 || n == len { "-" } else { "cut" };
     out.line("c18.skip", &args, &imp, &std_, tag);
     let imp = catch(|| show_parser(input, mk().skip_back(n)));
-    let std_ = format!("rem={};off={};dir=E", view_str(input, &input[..down]), off);
+    let std_ = format!("rem={};off={};dir=E;fl=F", view_str(input, &input[..down]), off);
     let tag = if n <= len && inside(len - n) { "round" } else if n > len { "beyond" } else if n == 0 || n == len { "-" } else { "cut" };
     out.line("c18.skip_back", &args, &imp, &std_, tag);
 }
@@ -52,7 +64,7 @@ pub fn run(cfg: &Cfg, out: &mut Out) {
     let l = if cfg.thorough { 5 } else { 4 };
     for s in all_strings(&alpha, l) {
         for n in 0..=s.len() + 2 {
-            for st in 0..2 {
+            for st in 0..3 {
                 one(&s, n, st, out);
             }
         }
